@@ -176,7 +176,7 @@ def t4b(F, rep):
     tgt = set()
     n_push = 0
     for bb, t in b.calls():
-        if re.search(r"Vec::(push|resize|extend_from_slice|extend|append)$", strip_generics(callee_def(t))):
+        if re.search(r"(Vec::(push|resize|extend_from_slice|extend|append)|Extend>?::extend)$", strip_generics(callee_def(t))):
             n_push += 1
             tgt.add(flow.describe(b, t["args"][0], names=True))
     ok2 = ok and n_push >= 3 and tgt == {"var(%s)" % m.group(1)}
